@@ -140,6 +140,40 @@ def swap_tail(dims):
     return tail()
 
 
+def pauli_cz_tail(dims):
+    """... W(a) on one or both legs, [Z**t], CZ**t with fractional t, [more W / CZ]: single and double crossing of held Paulis over a
+    partial CZ in eject_phased_paulis; mixed with the swap shape."""
+
+    @st.composite
+    def tail(draw):
+        if draw(st.integers(0, 2)) == 0:
+            return draw(swap_tail(dims))
+        qw = [i for i, d in enumerate(dims) if d == 2]
+        a, b = list(draw(st.permutations(qw)))[:2]
+        w_gate = st.one_of(st.sampled_from([_g("XPow", e=1.0, s=0.0), _g("YPow", e=1.0, s=0.0)]),
+                           G.exponents().map(lambda p: ["PhasedXPow", {"p": p, "e": 1.0, "s": 0.0}]),
+                           G.exponents().map(lambda p: ["PhasedXZ", {"x": 1.0, "z": 0.0, "a": p}]))
+        cz = G.exponents().map(lambda e: ["CZPow", {"e": e, "s": 0.0}])
+        zt = G.exponents().map(lambda e: ["ZPow", {"e": e, "s": 0.0}])
+        ops = []
+
+        def add(g, w):
+            ops.append({"k": "g", "g": g, "w": w, "ins": 0, "tag": 0})
+
+        add(draw(w_gate), [a])
+        if draw(st.integers(0, 3)) != 0:
+            add(draw(w_gate), [b])
+        if draw(st.booleans()):
+            add(draw(zt), [draw(st.sampled_from([a, b]))])
+        for _ in range(draw(st.integers(1, 2))):
+            add(draw(cz), [a, b] if draw(st.booleans()) else [b, a])
+            if draw(st.integers(0, 2)) == 0:
+                add(draw(w_gate), [draw(st.sampled_from([a, b]))])
+        return ops
+
+    return tail()
+
+
 ROWS: dict = {}
 
 
@@ -192,8 +226,8 @@ reg(Row("eject_z", ("eject_z",),
 reg(Row("eject_phased_paulis", ("eject_phased_paulis",),
         lambda c, o: cirq.eject_phased_paulis(c, context=ctx(o), atol=_atol(o, 1e-8), eject_parameterized=bool(X(o, "ep"))),
         opts=st.fixed_dictionaries({"atol": ATOLS, "ep": st.booleans()}),
-        unitary=U(param=True, boost=Z_LIKE + X_LIKE + PHXZ + [CZ1, _g("CZPow", e=0.3, s=0.0)], boost_p=0.65, tail=swap_tail, tail_p=2),
-        records=M(boost=Z_LIKE + X_LIKE + [CZ1], boost_p=0.5, tail=swap_tail, tail_p=2), tol=atol_tol(1e-8), weight=4))
+        unitary=U(param=True, boost=Z_LIKE + X_LIKE + PHXZ + [CZ1, _g("CZPow", e=0.3, s=0.0)], boost_p=0.65, tail=pauli_cz_tail, tail_p=4),
+        records=M(boost=Z_LIKE + X_LIKE + [CZ1], boost_p=0.5, tail=pauli_cz_tail, tail_p=3), tol=atol_tol(1e-8), weight=4))
 
 reg(Row("merge_single_qubit_gates_to_phased_x_and_z", ("merge_single_qubit_gates_to_phased_x_and_z",),
         lambda c, o: cirq.merge_single_qubit_gates_to_phased_x_and_z(c, context=ctx(o), atol=_atol(o, 1e-8)),
